@@ -5,7 +5,7 @@ import collections, json, os, re, tempfile, concurrent.futures as cf
 from . import tlc
 from .common import SPEC, Machinery
 
-KEYS_EV = ("ev", "out", "n", "take_best", "en_v", "dis_v", "dis_t", "v", "t", "it", "rows", "af")
+KEYS_EV = ("ev", "out", "n", "take_best", "en_v", "en_t", "dis_v", "dis_t", "v", "t", "it", "rows", "af")
 
 
 def _slim(t):
@@ -15,7 +15,7 @@ def _slim(t):
         d.setdefault("n", 0)
         d.setdefault("take_best", False)
         d.setdefault("it", -1)
-        for k in ("en_v", "dis_v", "dis_t", "v", "t"):
+        for k in ("en_v", "en_t", "dis_v", "dis_t", "v", "t"):
             d.setdefault(k, [])
         d["rows"] = [{"pt": r["ptn"], "va": r["va"], "ta": r["ta"]} for r in e["rows"]]
         d["af"] = {"cur": e["af"]["curn"], "vact": e["af"]["vact"], "tact": e["af"]["tact"], "loglen": e["af"]["loglen"]}
@@ -77,7 +77,7 @@ def attribute(ev):
         if rows and (set(rows[0]["va"]) & set(ev.get("dis_v", [])) or set(rows[0]["ta"]) & set(ev.get("dis_t", []))):
             return "C10"
         af = ev["af"]
-        if set(ev.get("dis_v", [])) - set(af["vact"]) or set(ev.get("dis_t", [])) - set(af["tact"]) or set(ev.get("en_v", [])) & set(af["vact"]):
+        if set(ev.get("dis_v", [])) - set(af["vact"]) or set(ev.get("dis_t", [])) - set(af["tact"]) or (set(ev.get("en_v", [])) - set(ev.get("dis_v", []))) & set(af["vact"]):
             return "C10"
     for i, r in enumerate(rows[1:], 1):
         if r.get("kind") == "jac" and [k for k in range(1, len(r.get("same", [])) + 10) if k not in r["va"] and k <= ev.get("nk", 0) and k not in r.get("same", [])]:
